@@ -102,6 +102,43 @@ def extra_tables():
     """hook for later additions that need custom patterns (policy struct defaults etc.)"""
     check_policy_defaults()
     return []
+    # C14
+    ("lockedRewardFactorNum", "Int", "actors/miner/src/monies.rs", "LOCKED_REWARD_FACTOR_NUM"),
+    ("lockedRewardFactorDenom", "Int", "actors/miner/src/monies.rs", "LOCKED_REWARD_FACTOR_DENOM"),
+]
+
+def struct_const_fields(rel, const_name, type_name, fields):
+    """`pub const NAME: Type = Type { field: EXPR, ... };` -> {field: evaluated int}; fails loudly."""
+    m = re.search(r"const\s+%s\s*:\s*%s\s*=\s*%s\s*\{(.*?)\}\s*;" % (const_name, type_name, type_name),
+                  src(rel), re.S)
+    if not m:
+        raise KeyError("struct constant %s in %s" % (const_name, rel))
+    body = re.sub(r"//[^\n]*", "", m.group(1))
+    out = {}
+    for part in body.split(","):
+        part = part.strip()
+        if not part:
+            continue
+        k, _, v = part.partition(":")
+        out[k.strip()] = evaluate(v, rel)
+    missing = [f for f in fields if f not in out]
+    extra = [f for f in out if f not in fields]
+    if missing or extra:
+        raise KeyError("struct constant %s: missing fields %s, unknown fields %s" % (const_name, missing, extra))
+    return out
+
+
+def extra_tables():
+    """hook for later additions that need custom patterns (policy struct defaults etc.)"""
+    lines = []
+    # C14: REWARD_VESTING_SPEC (actors/miner/src/policy.rs), a struct literal
+    spec = struct_const_fields("actors/miner/src/policy.rs", "REWARD_VESTING_SPEC", "VestSpec",
+                               ["initial_delay", "vest_period", "step_duration", "quantization"])
+    lines.append("def rewardVestInitialDelay : Int := %d" % spec["initial_delay"])
+    lines.append("def rewardVestPeriod : Int := %d" % spec["vest_period"])
+    lines.append("def rewardVestStepDuration : Int := %d" % spec["step_duration"])
+    lines.append("def rewardVestQuantization : Int := %d" % spec["quantization"])
+    return lines
 
 def main():
     lines = ["-- GENERATED by tools/extract_constants.py from /repo — do not edit by hand.",
